@@ -269,6 +269,7 @@ void fill_base(Rng &g, Scn &s, int Tmax_small) {
   s.i["sio"] = g.chance(0.5) ? 1 : 0;
   s.i["ioseed"] = (long)(g.next() >> 2);
   s.i["fz"] = g.chance(0.2) ? 1 : 0;
+  s.i["kb"] = (long)g.below(2);
   Bytes key(16);
   g.bytes(key.data(), 16);
   switch (g.below(24)) {   // a few structured keys: C-string style handling of the key, sign / zero byte slips
@@ -298,6 +299,7 @@ OpSpec base_op(const Scn &s, int kind, int slot, SimFile *fin, SimFile *fout, lo
   op.hmode = (int)s.geti("hm", 0);
   const Bytes &k = s.getb("key");
   for (size_t i = 0; i < 16 && i < k.size(); i++) op.key[i] = k[i];
+  op.keyslot = (int)s.geti("kb", 0);
   op.seedstr = s.getb("seedstr");
   op.fin = fin;
   op.fout = fout;
